@@ -459,6 +459,55 @@ fn format_function(
     format!("{name}({arguments})")
 }
 
+/// Binding strength of the operator at the root of `node`, following the grammar in
+/// `parser/mod.rs` (higher binds tighter). Used to decide where parentheses are needed so that
+/// the printed formula parses back to the same tree.
+fn precedence(node: &Node, export_to_excel: bool) -> u8 {
+    match node {
+        Node::CompareKind { .. } => 1,
+        Node::OpConcatenateKind { .. } => 2,
+        Node::OpSumKind { .. } => 3,
+        Node::OpProductKind { .. } => 4,
+        Node::OpPowerKind { .. } => 5,
+        Node::UnaryKind { .. } => 6,
+        Node::OpRangeKind { .. } => 7,
+        // When exporting these are written as function calls (`_xlfn.SINGLE`, `_xlfn.ANCHORARRAY`)
+        Node::ImplicitIntersection { .. } | Node::SpillRangeOperator { .. } => {
+            if export_to_excel {
+                9
+            } else {
+                8
+            }
+        }
+        _ => 9,
+    }
+}
+
+/// Stringifies `node`, wrapping it in parentheses if it binds weaker than `min_precedence`.
+fn stringify_operand(
+    node: &Node,
+    min_precedence: u8,
+    context: Option<&CellReferenceRC>,
+    displace_data: &DisplaceData,
+    export_to_excel: bool,
+    locale: &Locale,
+    language: &Language,
+) -> String {
+    let s = stringify(
+        node,
+        context,
+        displace_data,
+        export_to_excel,
+        locale,
+        language,
+    );
+    if precedence(node, export_to_excel) < min_precedence {
+        format!("({s})")
+    } else {
+        s
+    }
+}
+
 // There is just one representation in the AST (Abstract Syntax Tree) of a formula.
 // But three different ways to convert it to a string.
 //
@@ -654,157 +703,111 @@ fn stringify(
         }
         OpRangeKind { left, right } => format!(
             "{}:{}",
-            stringify(
+            stringify_operand(
                 left,
+                8,
                 context,
                 displace_data,
                 export_to_excel,
                 locale,
-                language
+                language,
             ),
-            stringify(
+            stringify_operand(
                 right,
+                9,
                 context,
                 displace_data,
                 export_to_excel,
                 locale,
-                language
+                language,
             )
         ),
         OpConcatenateKind { left, right } => format!(
             "{}&{}",
-            stringify(
+            stringify_operand(
                 left,
+                2,
                 context,
                 displace_data,
                 export_to_excel,
                 locale,
-                language
+                language,
             ),
-            stringify(
+            stringify_operand(
                 right,
+                3,
                 context,
                 displace_data,
                 export_to_excel,
                 locale,
-                language
+                language,
             )
         ),
         CompareKind { kind, left, right } => format!(
             "{}{}{}",
-            stringify(
+            stringify_operand(
                 left,
+                1,
                 context,
                 displace_data,
                 export_to_excel,
                 locale,
-                language
+                language,
             ),
             kind,
-            stringify(
+            stringify_operand(
                 right,
+                2,
                 context,
                 displace_data,
                 export_to_excel,
                 locale,
-                language
+                language,
             )
         ),
         OpSumKind { kind, left, right } => {
-            // CompareKind has lower precedence than +/-, so wrap it to preserve semantics
-            let left_str = if matches!(**left, CompareKind { .. }) {
-                format!(
-                    "({})",
-                    stringify(
-                        left,
-                        context,
-                        displace_data,
-                        export_to_excel,
-                        locale,
-                        language
-                    )
-                )
-            } else {
-                stringify(
-                    left,
-                    context,
-                    displace_data,
-                    export_to_excel,
-                    locale,
-                    language,
-                )
-            };
-            // if kind is minus then we need parentheses in the right side if they are OpSumKind or CompareKind
-            let right_str = if (matches!(kind, OpSum::Minus) && matches!(**right, OpSumKind { .. }))
-                | matches!(**right, CompareKind { .. })
-            {
-                format!(
-                    "({})",
-                    stringify(
-                        right,
-                        context,
-                        displace_data,
-                        export_to_excel,
-                        locale,
-                        language
-                    )
-                )
-            } else {
-                stringify(
-                    right,
-                    context,
-                    displace_data,
-                    export_to_excel,
-                    locale,
-                    language,
-                )
-            };
-
+            // Operands that bind weaker (comparison, concatenation) need parentheses
+            let left_str = stringify_operand(
+                left,
+                3,
+                context,
+                displace_data,
+                export_to_excel,
+                locale,
+                language,
+            );
+            // 1-(2-3) needs them; 1+(2+3) is deliberately shown as 1+2+3
+            let right_min = if matches!(kind, OpSum::Minus) { 4 } else { 3 };
+            let right_str = stringify_operand(
+                right,
+                right_min,
+                context,
+                displace_data,
+                export_to_excel,
+                locale,
+                language,
+            );
             format!("{left_str}{kind}{right_str}")
         }
         OpProductKind { kind, left, right } => {
-            let x = match **left {
-                OpSumKind { .. } | CompareKind { .. } => format!(
-                    "({})",
-                    stringify(
-                        left,
-                        context,
-                        displace_data,
-                        export_to_excel,
-                        locale,
-                        language
-                    )
-                ),
-                _ => stringify(
-                    left,
-                    context,
-                    displace_data,
-                    export_to_excel,
-                    locale,
-                    language,
-                ),
-            };
-            let y = match **right {
-                OpSumKind { .. } | CompareKind { .. } | OpProductKind { .. } => format!(
-                    "({})",
-                    stringify(
-                        right,
-                        context,
-                        displace_data,
-                        export_to_excel,
-                        locale,
-                        language
-                    )
-                ),
-                _ => stringify(
-                    right,
-                    context,
-                    displace_data,
-                    export_to_excel,
-                    locale,
-                    language,
-                ),
-            };
+            let x = stringify_operand(
+                left,
+                4,
+                context,
+                displace_data,
+                export_to_excel,
+                locale,
+                language,
+            );
+            let y = stringify_operand(
+                right,
+                5,
+                context,
+                displace_data,
+                export_to_excel,
+                locale,
+                language,
+            );
             format!("{x}{kind}{y}")
         }
         OpPowerKind { left, right } => {
@@ -961,74 +964,32 @@ fn stringify(
         DefinedNameKind((name, ..)) => name.to_string(),
         NamedVariableKind { name, id: _ } => name.to_string(),
         UnaryKind { kind, right } => match kind {
-            OpUnary::Minus => {
-                let needs_parentheses = match **right {
-                    BooleanKind(_)
-                    | NumberKind(_)
-                    | StringKind(_)
-                    | ReferenceKind { .. }
-                    | RangeKind { .. }
-                    | WrongReferenceKind { .. }
-                    | WrongRangeKind { .. }
-                    | OpRangeKind { .. }
-                    | OpConcatenateKind { .. }
-                    | OpProductKind { .. }
-                    | FunctionKind { .. }
-                    | NamedFunctionKind { .. }
-                    | LambdaDefKind { .. }
-                    | LambdaCallKind { .. }
-                    | ArrayKind(_)
-                    | DefinedNameKind(_)
-                    | TableNameKind(_)
-                    | NamedVariableKind { .. }
-                    | ImplicitIntersection { .. }
-                    | SpillRangeOperator { .. }
-                    | CompareKind { .. }
-                    | ErrorKind(_)
-                    | ParseErrorKind { .. }
-                    | EmptyArgKind => false,
-
-                    OpPowerKind { .. } | OpSumKind { .. } | UnaryKind { .. } => true,
-                };
-                if needs_parentheses {
-                    format!(
-                        "-({})",
-                        stringify(
-                            right,
-                            context,
-                            displace_data,
-                            export_to_excel,
-                            locale,
-                            language
-                        )
-                    )
-                } else {
-                    format!(
-                        "-{}",
-                        stringify(
-                            right,
-                            context,
-                            displace_data,
-                            export_to_excel,
-                            locale,
-                            language
-                        )
-                    )
-                }
-            }
-            OpUnary::Percentage => {
-                format!(
-                    "{}%",
-                    stringify(
-                        right,
-                        context,
-                        displace_data,
-                        export_to_excel,
-                        locale,
-                        language
-                    )
+            // -(1+2), -(2*3), -(2^2), -(-2), -(1&2), -(1<2)
+            OpUnary::Minus => format!(
+                "-{}",
+                stringify_operand(
+                    right,
+                    7,
+                    context,
+                    displace_data,
+                    export_to_excel,
+                    locale,
+                    language,
                 )
-            }
+            ),
+            // (1+2)%, (2^2)%; -2% is (-2)%
+            OpUnary::Percentage => format!(
+                "{}%",
+                stringify_operand(
+                    right,
+                    6,
+                    context,
+                    displace_data,
+                    export_to_excel,
+                    locale,
+                    language,
+                )
+            ),
         },
         ErrorKind(kind) => format!("{kind}"),
         ParseErrorKind { formula, .. } => formula.to_string(),
@@ -1049,13 +1010,14 @@ fn stringify(
             };
             format!(
                 "{}#",
-                stringify(
+                stringify_operand(
                     child,
+                    9,
                     context,
                     displace_data,
                     export_to_excel,
                     locale,
-                    language
+                    language,
                 )
             )
         }
@@ -1144,13 +1106,14 @@ fn stringify(
             }
             format!(
                 "@{}",
-                stringify(
+                stringify_operand(
                     child,
+                    9,
                     context,
                     displace_data,
                     export_to_excel,
                     locale,
-                    language
+                    language,
                 )
             )
         }
